@@ -19,6 +19,8 @@
 (*   op     a bitwise operator is compiled                                 *)
 (*   stop   the spelling is not a program under these flags: the matched   *)
 (*          text ends before it                                            *)
+(*   error  the input is rejected as a whole (a statement keyword where    *)
+(*          statements are off is reported, not skipped)                   *)
 (***************************************************************************)
 EXTENDS Naturals, Sequences, FiniteSets, TLC
 
@@ -53,7 +55,7 @@ Begin == /\ phase = "idle"
 
 Put(item, becomes) ==
   /\ cur' = Append(cur, item @@ [as |-> becomes])
-  /\ phase' = IF becomes = "stop" THEN "stopped" ELSE "parse"
+  /\ phase' = IF becomes \in {"stop", "error"} THEN "stopped" ELSE "parse"
 
 \* // #EnableDice f on   -- at statement position
 Macro(f, on) == /\ phase = "parse"
@@ -70,7 +72,7 @@ Use(f, i) == /\ phase = "parse"
              /\ UNCHANGED <<cfg, pcfg, macros, runs>>
 
 Stmt(k) == /\ phase = "parse"
-           /\ Put([t |-> "stmt", kind |-> k], IF pcfg.noStmts THEN "stop" ELSE "stmt")
+           /\ Put([t |-> "stmt", kind |-> k], IF pcfg.noStmts THEN "error" ELSE "stmt")
            /\ UNCHANGED <<cfg, pcfg, macros, runs>>
 
 NDice(i) == /\ phase = "parse"
